@@ -190,6 +190,18 @@ def fam_frag(counts, tier: str, rnd: random.Random) -> list[dict]:
                                              [{"k": "frag", "split": split, "d": d, "d2": d2, "second": "exact"}, {"k": "ans", "d": 1}]]
                             sc["family"] = "frag"
                             out.append(sc)
+                # other configured timeouts (2 s, 3 s, 5 s): the exact remainder arrives any time before the re-armed timer,
+                # also seconds after the head - an absolute age limit shorter than the configured timeout shows here only
+                if split in (splits[0], splits[len(splits) // 2], splits[-1]) or tier != "quick":
+                    for t in (4 * T, 6 * T, 10 * T):
+                        for (d, d2) in ((1, t - 1), (1, t), (t - 1, 2 * t - 2), (2, t + 1), (1, 2), (1, 1 + 2 * T + 1)):
+                            for ka in (True, False):
+                                sc = base(kind, ka, 1, fr, t=t)
+                                sc["epochs"] = [[{"start": 0, "prog": [req(100, n=n), {"do": "sleep", "d": 0}, req(101, n=n)]}]]
+                                sc["rfaults"] = [[{"k": "frag", "split": split, "d": d, "d2": d2, "second": "exact"}, {"k": "ans", "d": 1}],
+                                                 [{"k": "ans", "d": 1}]]
+                                sc["family"] = "frag"
+                                out.append(sc)
                 # the same exact splits with contents that look like a frame header wherever the answer is cut
                 for pat in ("aa55", "55aa", "aa557fc0"):
                     sc = base(kind, True, 1, fr)
